@@ -161,6 +161,82 @@ def _set_threads(i):
         pass
 
 
+AMBIENT = os.environ.get("VERIF_AMBIENT", "1") == "1"
+_AMBIENT_SAVED = None
+_AMBIENT_ERR = None
+_TZS = ("UTC", "Asia/Kathmandu", "America/St_Johns", "Pacific/Kiritimati")
+
+
+def _ambient_set(phase):
+    """Process-wide state that belongs to the caller, not to the library, and that no property mentions: NumPy's floating-point
+    error mode, the garbage collector's schedule, the interpreter's thread switch interval, the umask, the time zone, NumPy's
+    print options.  Two cases of three run under the defaults; the third runs under a combination derived from the case, restored
+    when the case ends.  Returns a short label for the evidence."""
+    global _AMBIENT_SAVED
+    if not AMBIENT or phase % 3 != 2:
+        return "default"
+    import gc
+    import sys
+    import time
+
+    import numpy as np
+
+    k = phase // 3
+    saved = {"err": np.geterr(), "gc_enabled": gc.isenabled(), "gc_thr": gc.get_threshold(), "swi": sys.getswitchinterval(),
+             "tz": os.environ.get("TZ"), "print": np.get_printoptions()}
+    label = []
+    # the floating-point error mode is in force around every monitored call into the library (Monitor.api), not process-wide:
+    # the reference computations of the monitors themselves must not change behaviour with it
+    global _AMBIENT_ERR
+    _AMBIENT_ERR = ("raise", "ignore", "warn", "raise")[k % 4]
+    label.append("err=" + _AMBIENT_ERR)
+    g = k // 4 % 3
+    if g == 1:
+        gc.disable()
+        label.append("gc=off")
+    elif g == 2:
+        gc.set_threshold(3, 10, 1000)
+        label.append("gc=eager")
+    if k // 12 % 2:
+        sys.setswitchinterval(1e-5)
+        label.append("switch=10us")
+    saved["umask"] = os.umask((0o077, 0o000, 0o027)[k // 24 % 3])
+    label.append("umask")
+    os.environ["TZ"] = _TZS[k // 72 % len(_TZS)]
+    time.tzset()
+    label.append("tz=" + os.environ["TZ"])
+    if k // 5 % 2:
+        np.set_printoptions(precision=1, threshold=3, edgeitems=1, linewidth=20)
+        label.append("print=tiny")
+    _AMBIENT_SAVED = saved
+    return ",".join(label)
+
+
+def _ambient_restore():
+    global _AMBIENT_SAVED, _AMBIENT_ERR
+    saved, _AMBIENT_SAVED = _AMBIENT_SAVED, None
+    _AMBIENT_ERR = None
+    if saved is None:
+        return
+    import gc
+    import sys
+    import time
+
+    import numpy as np
+
+    np.seterr(**saved["err"])
+    gc.set_threshold(*saved["gc_thr"])
+    (gc.enable if saved["gc_enabled"] else gc.disable)()
+    sys.setswitchinterval(saved["swi"])
+    os.umask(saved["umask"])
+    if saved["tz"] is None:
+        os.environ.pop("TZ", None)
+    else:
+        os.environ["TZ"] = saved["tz"]
+    time.tzset()
+    np.set_printoptions(**saved["print"])
+
+
 class Monitor:
     """Collects what the monitors observed and decides the three-valued verdict.
 
@@ -213,6 +289,13 @@ class Monitor:
             _state.reset_layouts(getattr(self, "_thread_phase", self.n_cases) // 7)
         except Exception:  # noqa: BLE001
             pass
+        # process-wide state owned by the caller (floating-point error mode, collector schedule, switch interval, umask, time zone)
+        _ambient_restore()
+        lab = _ambient_set(getattr(self, "_thread_phase", self.n_cases) // 5)
+        if lab != "default":
+            self.counters["cases_under_changed_ambient_state"] += 1
+            for part in lab.split(","):
+                self.classes["ambient_state"].add(part)
 
     def nontrivial(self, flag=True):
         if flag:
@@ -220,6 +303,7 @@ class Monitor:
 
     def end_case(self):
         case = self._case
+        _ambient_restore()
         if case is None:
             return
         d = digest_of(case)
@@ -281,6 +365,11 @@ class Monitor:
                 _set_threads(getattr(self, "_thread_phase", 0) + self._api_n // 7)
                 self.counters["numba_thread_count_changes"] += 1
         try:
+            if _AMBIENT_ERR is not None:
+                import numpy as np
+
+                with np.errstate(all=_AMBIENT_ERR):
+                    return fn(*args, **kw)
             return fn(*args, **kw)
         except (CaseAbort, StopRun):
             raise
